@@ -6,6 +6,28 @@ use lock_api::GuardNoSend;
 
 use crate::world::{cur, take_reg_tag, LockId, Mode, Op};
 
+thread_local! {
+	/// set by the harness while it ends a hold through a guard (drop or `Type::unlock(guard)`):
+	/// the key travels inside the guard, so it must not be obtainable before the last raw unlock
+	pub static GUARD_RELEASE: std::cell::Cell<bool> = const { std::cell::Cell::new(false) };
+}
+
+/// An observer inside the raw unlock (what a user-supplied raw lock could do): while a guard is
+/// being released the thread's key must still be out of reach.
+fn probe_key_during_guard_release(id: LockId) {
+	if GUARD_RELEASE.with(|g| g.get()) {
+		if let Some(k) = happylock::ThreadKey::get() {
+			drop(k);
+			let (w, t) = cur();
+			w.violate(
+				"C03",
+				"key_obtainable_during_guard_release",
+				format!("thread {t}: ThreadKey::get() succeeded inside the raw unlock of lock {id} while a guard was being released (locks covered by it are still held)"),
+			);
+		}
+	}
+}
+
 pub struct AuditMutex {
 	id: AtomicU32,
 }
@@ -60,6 +82,7 @@ unsafe impl lock_api::RawMutex for AuditMutex {
 	}
 	unsafe fn unlock(&self) {
 		let id = resolve(&self.id, false);
+		probe_key_during_guard_release(id);
 		let (w, t) = cur();
 		w.raw_op(t, id, Op::Unlock, Mode::Excl);
 	}
@@ -84,6 +107,7 @@ unsafe impl lock_api::RawRwLock for AuditRwLock {
 	}
 	unsafe fn unlock_shared(&self) {
 		let id = resolve(&self.id, true);
+		probe_key_during_guard_release(id);
 		let (w, t) = cur();
 		w.raw_op(t, id, Op::Unlock, Mode::Shared);
 	}
@@ -99,6 +123,7 @@ unsafe impl lock_api::RawRwLock for AuditRwLock {
 	}
 	unsafe fn unlock_exclusive(&self) {
 		let id = resolve(&self.id, true);
+		probe_key_during_guard_release(id);
 		let (w, t) = cur();
 		w.raw_op(t, id, Op::Unlock, Mode::Excl);
 	}
